@@ -41,18 +41,40 @@ def run(ctx):
     try:
         for i in range(ctx.n(200)):
             g = gen.random_graph(rng, meta_p=0.4, maxdepth=2) if i % 3 else gen.consistent_graph(rng, max_nodes=6)[0]
+            forced = None
+            if i % 10 == 7:
+                # a nested graph wired through dotted port names (the form tests/test_ir.py uses), types consistent
+                sh = gen.shape(rng, rank=rng.randrange(1, 3))
+                io = lambda kind, key: {"type": kind, "kwargs": [[key, gen.shape_arg(rng, sh, key.split("_")[0])]]}
+                inner = {"type": "NIRGraph", "meta": None, "edges": [["in1", "s"], ["s", "out1"]], "nodes": [
+                    ["in1", io("Input", "input_type")], ["s", gen.node_recipe(rng, "Scale", sh=sh, dtype="<f8", meta_p=0.0)],
+                    ["out1", io("Output", "output_type")]]}
+                g = {"type": "NIRGraph", "meta": None, "nodes": [["in", io("Input", "input_type")], ["inner", inner],
+                                                                 ["out", io("Output", "output_type")]],
+                     "edges": [["in", "inner.in1"], ["inner.out1", "out"]]}
+                forced = ["check", rng.choice(["to_dict", "inputs", "check"]), "check"]
             case = {"op": "observers", "graph": g}
             try:
                 graph = impl_construct(g)
             except Exception:
                 ctx.count("construct_rejected"); continue
+            if i % 3 == 0 and rng.random() < 0.6:
+                # observe an *inferred* graph: types that only inference provides (pooling, erased Conv/Flatten/Output)
+                try:
+                    from core import quiet
+                    with quiet():
+                        graph.infer_types()
+                    case["inferred_first"] = True
+                    ctx.count("inferred_first")
+                except Exception:
+                    case["inferred_first"] = "raised"
             failing = None
             if i % 4 == 0:
                 failing = rng.choice(["object", "none", "nested-object", "uncopyable", "ragged"])
                 inject_unwritable(rng, graph, failing)
                 case["inject"] = failing
             n_obs = rng.randrange(1, 7)
-            observers = [rng.choice(["to_dict", "write_bytesio", "write_path", "check", "inputs", "outputs"]) for _ in range(n_obs)]
+            observers = forced or [rng.choice(["to_dict", "write_bytesio", "write_path", "check", "inputs", "outputs"]) for _ in range(n_obs)]
             case["observers"] = observers
             ctx.case(case); ctx.count("graphs")
             snap = compare.snapshot(graph)
